@@ -4,6 +4,7 @@ import GrVerif.Model.PassLoad
 import GrVerif.Model.ClassMap
 import GrVerif.Model.SilfLoad
 import GrVerif.Model.CodeLoad
+import GrVerif.Model.RulesLoad
 namespace Driver.Loader
 open GrVerif.Loader Driver
 
@@ -47,35 +48,27 @@ def stepRanges (ws : List String) : String :=
     | _, _, _, _ => "bad-op"
   | _ => "bad-op"
 
-/-- `pass <subtable base> <pass type (unused)> <collision flags allowed: 0|1> <hex pass bytes>` : the layout part of `Pass::readPass` -/
+/-- `pass <subtable base> <pass type> <collision flags allowed: 0|1> <classes> <gattrs> <feats> <user> <hex pass bytes>` : `Pass::readPass` -/
 def stepPass (ws : List String) : String :=
   match ws with
-  | [base, _, cok, h] =>
-    match base.toNat?, cok.toNat?, parseHexUnits 2 h with
-    | some base, some cok, some b =>
-      match readPassLayout b.toList base (cok ≠ 0) with
+  | [base, pt, cok, cl, ga, fe, us, h] =>
+    match base.toNat?, pt.toNat?, cok.toNat?, cl.toNat?, ga.toNat?, fe.toNat?, us.toNat?, parseHexUnits 2 h with
+    | some base, some pt, some cok, some cl, some ga, some fe, some us, some b =>
+      match readPassAll b.toList base (cok ≠ 0) { classes := cl, glyfAttrs := ga, features := fe, numUser := us } pt with
       | .error _ => "fault"
       | .ok (.error e) => s!"E{e}"
-      | .ok (.ok L) =>
+      | .ok (.ok P) =>
+        let L := P.layout
         let f := L.hdr.flags
-        let b := b.toList
         let hd := s!"ok {L.hdr.maxLoop},{L.hdr.numRules},{L.hdr.numStates},{L.hdr.numTransition},{L.hdr.numSuccess},{L.hdr.numColumns},{L.arr.numGlyphs},{L.arr.minPre},{L.arr.maxPre},{L.arr.colThreshold},{(f / 32) % 2},{f % 8},{(f / 8) % 4}"
-        if L.hdr.numRules = 0 then hd ++ " R:- S:-" else
-        -- what follows the layout when there are rules: readRanges, (the rule records and their code: not modelled,) the rule map, readStates
-        let rs := match readRanges L.arr.numGlyphs L.hdr.numColumns ((b.drop L.arr.ranges).take (L.hdr.numRanges * 6)) L.hdr.numRanges with
-          | .error _ => "fault"
-          | .ok none => "E51"
-          | .ok (some cols) => digest cols
-        let ms := match readRuleMap b L with
-          | .error _ => "fault"
-          | .ok (.error e) => s!"E{e}"
-          | .ok (.ok es) => toString es.length
-        let ss := match readStates b L with
-          | .error _ => "fault"
-          | .ok (.error e) => s!"E{e}"
-          | .ok (.ok T) => digest (T.starts ++ T.trans ++ T.ruleRange.flatMap fun (r : Nat × Nat) => [r.1, min (r.2 - r.1) 128])
-        s!"{hd} R:{rs} S:{ss} M:{ms}"
-    | _, _, _ => "bad-op"
+        match P.tables with
+        | none => hd ++ " R:- S:- U:-"
+        | some T =>
+          let sz (p : Option GrVerif.CodeLoad.Loaded) : List Nat := match p with | none => [0, 0] | some p => [p.instrs.length, p.dataSize]
+          let us := P.rules.flatMap fun r => [r.sort, r.pre] ++ sz r.action ++ sz r.constraint
+          let ss := digest (T.starts ++ T.trans ++ T.ruleRange.flatMap fun (r : Nat × Nat) => [r.1, min (r.2 - r.1) 128])
+          s!"{hd} R:{digest P.cols} S:{ss} U:{digest us}"
+    | _, _, _, _, _, _, _, _ => "bad-op"
   | _ => "bad-op"
 
 /-- `classmap <wide> <hex> <cid.x,…>` -/
@@ -103,39 +96,44 @@ def describeSilf (t : SilfTable) : String :=
   let f := t.fixed
   let m := t.mid
   let ps := t.pseudos.flatMap fun (r : Nat × Nat) => [r.1, r.2]
-  let pp := t.passes.flatMap fun s => [s.layout.hdr.numRules, s.layout.hdr.numStates]
+  let pp := t.passes.flatMap fun s => [s.pass.layout.hdr.numRules, s.pass.layout.hdr.numStates]
   s!"{f.numPasses},{f.sPass},{f.pPass},{f.jPass},{f.bPass},{f.flags},{f.aPseudo},{f.aBreak},{f.aBidi},{f.aMirror},{f.aPassBits},{f.numJusts},{m.aLig},{m.aUser},{m.iMaxComp},{m.dir},{m.aCollision},{m.gEndLine},{t.pseudos.length} PS:{digest ps} C:{t.classes.nClass},{t.classes.nLinear} P:{digest pp}"
 
+/-- the engine's error context does not survive the pass loader, so the pass number is not part of what is compared -/
 def showSilfErr : SilfErr → String
   | .silf c => s!"E{c}"
-  | .pass i c => s!"P{i} E{c}"
+  | .pass _ c => s!"E{c}"
 
-/-- `silf <version> <numGlyphs> <numAttrs> <hasBoxes> <hex>` : `Silf::readGraphite` -/
+/-- `silf <version> <numGlyphs> <numAttrs> <hasBoxes> <numFeatures> <hex>` : `Silf::readGraphite` -/
 def stepSilf (ws : List String) : String :=
   match ws with
-  | [v, ng, na, hb, h] =>
-    match v.toNat?, ng.toNat?, na.toNat?, hb.toNat?, parseHexUnits 2 h with
-    | some v, some ng, some na, some hb, some b =>
-      match readSilf b.toList v ng na (hb ≠ 0) with
+  | [v, ng, na, hb, nf, h] =>
+    match v.toNat?, ng.toNat?, na.toNat?, hb.toNat?, nf.toNat?, parseHexUnits 2 h with
+    | some v, some ng, some na, some hb, some nf, some b =>
+      match readSilf b.toList v ng na (hb ≠ 0) nf with
       | .error _ => "fault"
       | .ok (.error e) => showSilfErr e
       | .ok (.ok t) => "ok " ++ describeSilf t
-    | _, _, _, _, _ => "bad-op"
+    | _, _, _, _, _, _ => "bad-op"
   | _ => "bad-op"
 
-/-- `silftable <numGlyphs> <numAttrs> <hasBoxes> <hex>` : `Face::readGraphite` -/
+/-- `silftable <numGlyphs> <numAttrs> <hasBoxes> <numFeatures> <hex>` : `Face::readGraphite` -/
 def stepSilfTable (ws : List String) : String :=
   match ws with
-  | [ng, na, hb, h] =>
-    match ng.toNat?, na.toNat?, hb.toNat?, parseHexUnits 2 h with
-    | some ng, some na, some hb, some b =>
-      match readSilfTable b.toList ng na (hb ≠ 0) with
+  | [ng, na, hb, nf, h] =>
+    match ng.toNat?, na.toNat?, hb.toNat?, nf.toNat?, parseHexUnits 2 h with
+    | some ng, some na, some hb, some nf, some b =>
+      let bl := b.toList
+      -- not the subject here: what `Face::Table` does not hand out (`TtfUtil::CheckTable`: shorter than 4 bytes) or decompresses first (C14)
+      if bl.length < 4 then "notable" else
+      if bl.length ≥ 8 ∧ ((bl.getD 0 0 * 256 + bl.getD 1 0) * 256 + bl.getD 2 0) * 256 + bl.getD 3 0 ≥ 0x00050000 ∧ bl.getD 4 0 / 8 ≠ 0 then "compressed" else
+      match readSilfTable bl ng na (hb ≠ 0) nf with
       | .error _ => "fault"
       | .ok (.error e) => showSilfErr e
       | .ok (.ok ts) =>
         let have_ := ts.any fun t => t.fixed.numPasses ≠ 0
         String.intercalate " | " ((if have_ then s!"ok {ts.length}" else s!"nopasses {ts.length}") :: ts.map describeSilf)
-    | _, _, _, _ => "bad-op"
+    | _, _, _, _, _ => "bad-op"
   | _ => "bad-op"
 
 /-- `code <constraint> <passtype> <pre_context> <rule_length> <classes> <gattrs> <feats> <user> <hex>` : the code loader -/
